@@ -5,17 +5,21 @@ Firmware (src/target/firmware/layer1/mframe_sched.c):
   * `mframe_schedule_set(task_id)` – the trigger arithmetic, statement by statement,
     with the C integer widths (`fn : uint32_t`, `modulo frame_nr flags : uint16_t`,
     `frame_offset : uint8_t`, `p3 : uint16_t`);
-  * `mframe_schedule()` – the loop over the 32 task bits.
-  The task tables, `sched_set_for_task[]`, SCHEDULE_AHEAD/LATENCY and MF_F_* are
-  regenerated (`Gen/FwMframe.lean`).  The enable/disable latching through
-  `safe_fn`/`tasks_tgt` is not part of the mapping and is not modelled (`tasks` is the
-  active task bitmap).
+  * `mframe_schedule()` – the loop over the 32 task bits (`scheduleTasks`, `mframeSchedule`
+    on a given active bitmap), and the whole runtime on `struct mframe_scheduler`:
+    `mframe_enable / mframe_disable / mframe_set / mframe_reset`, the `tasks_tgt → tasks`
+    latch (`nothingInTheWay`, `latch`) and the `safe_fn` bookkeeping of
+    `mframe_schedule_set` (`safeUpdate`, `scheduleItemsSt`, `mframeScheduleSt`); what
+    `tdma_schedule_set` returns is the environment (`RvOf`).
+  The task tables, `sched_set_for_task[]`, SCHEDULE_AHEAD/LATENCY, MF_F_* and GSM_MAX_FN
+  are regenerated (`Gen/FwMframe.lean`).
 
 trxcon (src/host/trxcon/src/sched_mframe.c, sched_trx.c):
   * `l1sched_mframe_layout(config, tn)`;
   * the frame lookup `frames[fn % period]` of `l1sched_pull_burst` (sched_trx.c) and of
     the Downlink path – partial: period 0 divides by zero, `frames == NULL` is a NULL
-    dereference, an index past the table leaves the table.
+    dereference, an index past the table leaves the table.  The functions of sched_trx.c
+    that use it are modelled in `Model/TrxSched.lean`.
   `layouts[]` and every `frame_*[]` table are regenerated (`Gen/TrxconMframe.lean`).
 -/
 import OsmoVerif.Gen.FwMframe
@@ -35,6 +39,7 @@ inductive FwCrash where
   | taskOutOfRange   -- `sched_set_for_task[task_id]` with `task_id ≥ 32`
   | nullTable        -- `sched_set_for_task[task_id] == NULL`, `si->sched_set` read through it
   | divByZero        -- `% si->modulo` with `modulo == 0`
+  | shiftOutOfRange  -- `1 << task_id` with `task_id ≥ 32` (`mframe_enable` / `mframe_disable`)
 deriving DecidableEq, Repr
 
 /-- one recorded call `tdma_schedule_set(frame_offset, item_set, p3)` -/
@@ -93,6 +98,105 @@ def scheduleTasks (tasks fn : Nat) : List Nat → Except FwCrash (List Event)
 /-- `mframe_schedule()` with active task bitmap `tasks` at frame `fn` -/
 def mframeSchedule (tasks fn : Nat) : Except FwCrash (List Event) :=
   scheduleTasks tasks fn (List.range 32)
+
+/-! ### the runtime: `struct mframe_scheduler`, enable / disable / set / reset, `safe_fn` -/
+
+/-- `(int) (uint32_t) x` -/
+def toInt32 (x : Nat) : Int :=
+  if u32 x < 2147483648 then (u32 x : Int) else (u32 x : Int) - 4294967296
+
+/-- `struct mframe_scheduler { uint32_t tasks, tasks_tgt, safe_fn; }` -/
+structure MfState where
+  tasks : Nat
+  tasksTgt : Nat
+  safeFn : Nat
+deriving DecidableEq, Repr
+
+/-- `mframe_reset()`: `safe_fn = -1UL` truncated to `uint32_t` -/
+def mframeReset : MfState := ⟨0, 0, 4294967295⟩
+
+/-- `mframe_set(tasks)` -/
+def mframeSet (s : MfState) (tasks : Nat) : MfState := { s with tasksTgt := u32 tasks }
+
+/-- `mframe_enable(task_id)`: `tasks_tgt |= (1 << task_id)` (`1 << 31` taken as the bit
+    pattern 0x80000000, as every supported compiler does) -/
+def mframeEnable (s : MfState) (taskId : Nat) : Except FwCrash MfState :=
+  if taskId ≥ 32 then .error .shiftOutOfRange
+  else .ok { s with tasksTgt := s.tasksTgt ||| u32 (1 <<< taskId) }
+
+/-- `mframe_disable(task_id)`: `tasks_tgt &= ~(1 << task_id)` -/
+def mframeDisable (s : MfState) (taskId : Nat) : Except FwCrash MfState :=
+  if taskId ≥ 32 then .error .shiftOutOfRange
+  else .ok { s with tasksTgt := s.tasksTgt &&& (4294967295 - u32 (1 <<< taskId)) }
+
+/-- what the call `tdma_schedule_set(...)` returns for a sched set (the environment: the
+    number of frames the set spans, or a negative value on bucket overflow) -/
+abbrev RvOf := FwMframe.SchedSet → Int
+
+/-- `fn = l1s.current_time.fn; ADD_MODULO(fn, rv - 2, GSM_MAX_FN);`
+    `if ((fn > safe_fn) || (safe_fn >= GSM_MAX_FN)) safe_fn = fn;`
+    (`fn` is `uint32_t`, `rv - 2` an `int` converted to `uint32_t` by the `+=`) -/
+def safeUpdate (curFn : Nat) (rv : Int) (safeFn : Nat) : Nat :=
+  let fn1 := (((curFn : Int) + (rv - 2)) % 4294967296).toNat
+  let fn2 := if fn1 ≥ FwMframe.GSM_MAX_FN then u32 (fn1 + 4294967296 - FwMframe.GSM_MAX_FN) else fn1
+  if fn2 > safeFn ∨ safeFn ≥ FwMframe.GSM_MAX_FN then fn2 else safeFn
+
+/-- the `for (si = set; ...)` loop with the `safe_fn` bookkeeping -/
+def scheduleItemsSt (rv : RvOf) (taskId fn : Nat) :
+    List FwMframe.Item → Nat → Except FwCrash (List Event × Nat)
+  | [], sf => .ok ([], sf)
+  | it :: rest, sf =>
+    if it.modulo = 0 then .error .divByZero
+    else if fires it fn then
+      match scheduleItemsSt rv taskId fn rest (safeUpdate fn (rv it.set) sf) with
+      | .error e => .error e
+      | .ok (tl, sf') => .ok (eventOf taskId it :: tl, sf')
+    else scheduleItemsSt rv taskId fn rest sf
+
+/-- `mframe_schedule_set(task_id)` with the `safe_fn` bookkeeping -/
+def scheduleSetSt (rv : RvOf) (taskId fn sf : Nat) : Except FwCrash (List Event × Nat) :=
+  match FwMframe.schedSetForTask[taskId]? with
+  | none => .error .taskOutOfRange
+  | some none => .error .nullTable
+  | some (some items) => scheduleItemsSt rv taskId fn items sf
+
+/-- the loop over the 32 task bits with the `safe_fn` bookkeeping -/
+def scheduleTasksSt (rv : RvOf) (tasks fn : Nat) : List Nat → Nat → Except FwCrash (List Event × Nat)
+  | [], sf => .ok ([], sf)
+  | i :: rest, sf =>
+    if tasks.testBit i then
+      match scheduleSetSt rv i fn sf with
+      | .error e => .error e
+      | .ok (evs, sf1) =>
+        match scheduleTasksSt rv tasks fn rest sf1 with
+        | .error e => .error e
+        | .ok (tl, sf2) => .ok (evs ++ tl, sf2)
+    else scheduleTasksSt rv tasks fn rest sf
+
+/-- "nothing is in the way" at tick `fn`:
+    `fn_diff = safe_fn - current_time.fn` (`uint32_t` difference as `int`);
+    `(fn_diff <= 0) || (fn_diff >= (GSM_MAX_FN>>1)) || (safe_fn >= GSM_MAX_FN)` -/
+def nothingInTheWay (s : MfState) (fn : Nat) : Bool :=
+  let fnDiff := toInt32 (u32 s.safeFn + 4294967296 - u32 fn)
+  decide (fnDiff ≤ 0) || decide (fnDiff ≥ ((FwMframe.GSM_MAX_FN >>> 1 : Nat) : Int)) ||
+    decide (s.safeFn ≥ FwMframe.GSM_MAX_FN)
+
+/-- the task bitmap `mframe_schedule()` works with at tick `fn`:
+    `if (nothing in the way) tasks = tasks_tgt; else tasks &= tasks_tgt;` -/
+def latch (s : MfState) (fn : Nat) : Nat :=
+  if nothingInTheWay s fn then s.tasksTgt else s.tasks &&& s.tasksTgt
+
+/-- `mframe_schedule()` on the scheduler state at `l1s.current_time.fn = fn`, the loop
+    `for (i = 0; i < 32; i++)` running over `bits` -/
+def mframeScheduleOn (rv : RvOf) (s : MfState) (fn : Nat) (bits : List Nat) :
+    Except FwCrash (List Event × MfState) :=
+  match scheduleTasksSt rv (latch s fn) fn bits s.safeFn with
+  | .error e => .error e
+  | .ok (evs, sf) => .ok (evs, ⟨latch s fn, s.tasksTgt, sf⟩)
+
+/-- `mframe_schedule()` -/
+def mframeScheduleSt (rv : RvOf) (s : MfState) (fn : Nat) : Except FwCrash (List Event × MfState) :=
+  mframeScheduleOn rv s fn (List.range 32)
 
 /-- Hardware constant (modelled, not verified): a task written to the DSP API page during
     TDMA frame `N` is executed by the Calypso DSP in frame `N + 1` (double-buffered pages).
